@@ -157,6 +157,20 @@ Example C04_complete_unsettled_refuted :
   /\ check_C04_complete (map c_link cr_cfgs) (trace_of (run (init cr_cfgs []) (cr_ls ++ [LPoll 0 20]))) = true.
 Proof. vm_compute. split; reflexivity. Qed.
 
+(* likewise for a callback after pre_start that was cancelled (kill while parked, or abort): in
+   EVERY reachable world the task has ended (TJoin logged in the very step of the cancellation, or
+   TAborted logged just before it) *)
+Theorem C04_join_cancel_sound : forall cfgs msgs ls n,
+  check_C04_join_cancel n (trace_of (run (init cfgs msgs) ls)) = true.
+Proof. exact join_cancel_sound. Qed.
+
+Theorem C04_join_cancel_driver_programs : forall cfgs msgs rounds fuel order ops n,
+  check_C04_join_cancel n (trace_of (run_dops rounds fuel order (init cfgs msgs) ops)) = true.
+Proof. exact join_cancel_sound_dops. Qed.
+
+Check (C04_join_cancel_sound : forall cfgs msgs ls n,
+  check_C04_join_cancel n (trace_of (run (init cfgs msgs) ls)) = true).
+
 Check (C04_terminal_first_sound : forall cfgs msgs ls,
   check_C04_terminal_first (map c_link cfgs) (trace_of (run (init cfgs msgs) ls)) = true).
 Check (C04_join_sound : forall cfgs msgs ls n,
@@ -290,3 +304,5 @@ Print Assumptions C04_join_sound.
 Print Assumptions C04_join_driver_programs.
 Print Assumptions C04_complete_sound_settled.
 Print Assumptions C04_complete_sound_quiescent.
+Print Assumptions C04_join_cancel_sound.
+Print Assumptions C04_join_cancel_driver_programs.
